@@ -3397,19 +3397,24 @@ void simplecpp::preprocess(simplecpp::TokenList &output, const simplecpp::TokenL
     if (!isGnu(dui) && !strictAnsiDefined && !strictAnsiUndefined)
         macros.insert(std::pair<TokenString, Macro>("__STRICT_ANSI__", Macro("__STRICT_ANSI__", "1", dummy)));
 
-    macros.insert(std::make_pair("__FILE__", Macro("__FILE__", "__FILE__", dummy)));
-    macros.insert(std::make_pair("__LINE__", Macro("__LINE__", "__LINE__", dummy)));
-    macros.insert(std::make_pair("__COUNTER__", Macro("__COUNTER__", "__COUNTER__", dummy)));
+    if (dui.undefined.find("__FILE__") == dui.undefined.end())
+        macros.insert(std::make_pair("__FILE__", Macro("__FILE__", "__FILE__", dummy)));
+    if (dui.undefined.find("__LINE__") == dui.undefined.end())
+        macros.insert(std::make_pair("__LINE__", Macro("__LINE__", "__LINE__", dummy)));
+    if (dui.undefined.find("__COUNTER__") == dui.undefined.end())
+        macros.insert(std::make_pair("__COUNTER__", Macro("__COUNTER__", "__COUNTER__", dummy)));
     struct tm ltime {};
     getLocaltime(ltime);
-    macros.insert(std::make_pair("__DATE__", Macro("__DATE__", getDateDefine(&ltime), dummy)));
-    macros.insert(std::make_pair("__TIME__", Macro("__TIME__", getTimeDefine(&ltime), dummy)));
+    if (dui.undefined.find("__DATE__") == dui.undefined.end())
+        macros.insert(std::make_pair("__DATE__", Macro("__DATE__", getDateDefine(&ltime), dummy)));
+    if (dui.undefined.find("__TIME__") == dui.undefined.end())
+        macros.insert(std::make_pair("__TIME__", Macro("__TIME__", getTimeDefine(&ltime), dummy)));
 
     if (!dui.std.empty()) {
         const cstd_t c_std = simplecpp::getCStd(dui.std);
         if (c_std != CUnknown) {
             const std::string std_def = simplecpp::getCStdString(c_std);
-            if (!std_def.empty())
+            if (!std_def.empty() && dui.undefined.find("__STDC_VERSION__") == dui.undefined.end())
                 macros.insert(std::make_pair("__STDC_VERSION__", Macro("__STDC_VERSION__", std_def, dummy)));
         } else {
             const cppstd_t cpp_std = simplecpp::getCppStd(dui.std);
@@ -3426,7 +3431,7 @@ void simplecpp::preprocess(simplecpp::TokenList &output, const simplecpp::TokenL
                 return;
             }
             const std::string std_def = simplecpp::getCppStdString(cpp_std);
-            if (!std_def.empty())
+            if (!std_def.empty() && dui.undefined.find("__cplusplus") == dui.undefined.end())
                 macros.insert(std::make_pair("__cplusplus", Macro("__cplusplus", std_def, dummy)));
         }
     }
